@@ -122,15 +122,26 @@ func (t *Transformer) transformFieldsOf(wf *WireFieldsOf, pkg *types.Package) *K
 
 // buildStructConstructor builds a function literal for struct construction.
 func (t *Transformer) buildStructConstructor(structType types.Type, fields []fieldInfo, isPointer bool) *ast.FuncLit {
+	// A parameter must not hide an identifier the constructor's body mentions (the struct type and
+	// its package qualifier), repeat another parameter, or be a keyword.
+	taken := make(map[string]bool)
+	ast.Inspect(t.typeExpr(structType), func(n ast.Node) bool {
+		if ident, ok := n.(*ast.Ident); ok {
+			taken[ident.Name] = true
+		}
+		return true
+	})
+
 	// Build parameter list
 	var params []*ast.Field
 	var paramNames []string
 	for _, f := range fields {
 		paramName := toLowerCamel(f.name)
-		if token.IsKeyword(paramName) {
-			// a field such as Type or Default would give a parameter named by a keyword
+		for token.IsKeyword(paramName) || taken[paramName] {
+			// e.g. a field Type or Default, a field Logger of logger.Options, fields Name and name
 			paramName += "_"
 		}
+		taken[paramName] = true
 		paramNames = append(paramNames, paramName)
 		params = append(params, &ast.Field{
 			Names: []*ast.Ident{ast.NewIdent(paramName)},
